@@ -249,11 +249,24 @@ pub fn check(sc: &Scenario, ex: &mut Exec) -> (Verdict, Option<String>) {
             Ok(e) => e,
             Err(e) => return (Verdict::Skip(format!("engine_setup:{}", e)), None),
         };
+        let mut first_minus: Option<ResultSet> = None;
         for pi in &coupled {
             match ex.query(&mut eng2, &format!("dp_D_minus_u_{}", plans[*pi].0), &dp_sql, &plans[*pi].1) {
                 Ok((rs, _)) => {
                     if std::env::var("VERIF_DEBUG").is_ok() {
                         eprintln!("minus {} plan {} -> {:?}", u, plans[*pi].0, rs.rows);
+                    }
+                    // the noise may be invisible on D (a variance held at its clamp by the data)
+                    // and visible on the neighbouring instance: either way the column is noised
+                    match &first_minus {
+                        None => first_minus = Some(rs.clone()),
+                        Some(f) => {
+                            for i in 0..ncols {
+                                if column_multiset(&rs, i) != column_multiset(f, i) {
+                                    noise_dep[i] = true;
+                                }
+                            }
+                        }
                     }
                     for i in 0..ncols {
                         if !data_dep[i] && column_multiset(&rs, i) != column_multiset(&on_d[*pi], i) {
